@@ -197,18 +197,18 @@ def _rand_im(rng, n, depth):
     return [rng.choice(('and', 'or')), [_rand_im(rng, n, depth - 1) for _ in range(rng.choice((2, 2, 3)))]]
 
 
-def _rand_lm(rng, n, depth):
+def _rand_lm(rng, n, depth, multi=False):
     if depth == 0 or rng.random() < 0.3:
         r = rng.random()
         if r < 0.7:
             return ['lnum', _rand_im(rng, n, rng.choice((0, 1, 2)))]
         if r < 0.9:
-            return ['contents', rng.choice(['a', 'b', '^c$', '.', 'x'])]
+            return ['contents', rng.choice([':1$', '2', 'F0', 'x', ':[135]'] if multi else ['a', 'b', '^c$', '.', 'x'])]
         return ['const', rng.random() < 0.5]
     r = rng.random()
     if r < 0.3:
-        return ['not', _rand_lm(rng, n, depth - 1)]
-    return [rng.choice(('and', 'or')), [_rand_lm(rng, n, depth - 1) for _ in range(rng.choice((2, 2, 3)))]]
+        return ['not', _rand_lm(rng, n, depth - 1, multi)]
+    return [rng.choice(('and', 'or')), [_rand_lm(rng, n, depth - 1, multi) for _ in range(rng.choice((2, 2, 3)))]]
 
 
 def _batches(it, size):
@@ -239,6 +239,25 @@ def cases(tier, seed):
                 continue
             yield {'kind': 'ranges', 'n': n, 'final_nl': True, 'lists': b}
     rng = common.rng_for(seed, ID)
+    # ---- one filter (one instruction, one transformer object) applied to SEVERAL texts of different lengths -------
+    n_multi = 150 if tier == 'quick' else 2500
+    mrng = common.rng_for(0, ID, 'multi-core')
+    for i in range(60):
+        lens = [mrng.randrange(0, 7) for _ in range(mrng.choice((2, 3, 4, 5)))]
+        nmax = max(lens)
+        k = mrng.choice((2, 2, 3, 4))
+        yield {'kind': 'multi', 'sub': 'ranges', 'spec': [mrng.choice(all_ranges(nmax)) for _ in range(k)], 'lens': lens,
+               'final_nl': i % 3 != 0}
+    for _ in range(n_multi):
+        lens = [rng.randrange(0, 8) for _ in range(rng.choice((2, 3, 4, 5, 6)))]
+        nmax = max(lens)
+        if rng.random() < 0.6:
+            k = rng.randrange(1, 5)
+            yield {'kind': 'multi', 'sub': 'ranges', 'spec': [rng.choice(all_ranges(nmax)) for _ in range(k)],
+                   'lens': lens, 'final_nl': rng.random() < 0.7}
+        else:
+            yield {'kind': 'multi', 'sub': 'lm', 'spec': _rand_lm(rng, nmax, rng.choice((1, 2, 3)), multi=True),
+                   'lens': lens, 'final_nl': rng.random() < 0.7}
     n_rand = 400 if tier == 'quick' else 6000
     for _ in range(n_rand):
         n = rng.randrange(0, 7)
@@ -288,7 +307,99 @@ def teardown_worker(ctx):
 
 
 # ---------------------------------------------------------------------------------------------- execution
+def run_multi(case, ctx):
+    """One `dir-contents d : every file : contents -transformed-by filter X ( run % PROBE ... )`: the same transformer
+    object filters several texts; the probe records each transformed text (its lines name file and line number)."""
+    from vf import monitor, probe, driver
+    ses = ctx.get_session()
+    lens = case['lens']
+    files = {}
+    texts = []
+    for k, n in enumerate(lens):
+        lines = ['F%d:%d' % (k, i) for i in range(1, n + 1)]
+        t = '\n'.join(lines) + ('\n' if (case['final_nl'] and n > 0) else '')
+        texts.append((lines, t))
+        files['d/f%d.txt' % k] = t
+    if case['sub'] == 'ranges':
+        src = '-line-nums ' + ' '.join(render_range(r) for r in case['spec'])
+    else:
+        src = render_lm(case['spec'])
+        if case['spec'][0] in ('and', 'or'):
+            src = '( ' + src + ' )'
+    d = ses.new_case_dir(files)
+    out = os.path.join(d, 'records.jsonl')
+    # (-line-nums ranges run to the end of the line: the transformer is parenthesised with ")" on the next line)
+    text = ('[setup]\ncopy d\n[act]\n$ true\n[assert]\ndir-contents d : every file : contents -transformed-by ( filter %s\n'
+            '  ) ( run %% %s %s %s )\n' % (src, probe.PROBE, out, probe.ctrl(stdin=True)))
+    with open(os.path.join(d, 't.case'), 'w') as f:
+        f.write(text)
+    _M5_STATE['violations'] = []
+    r = ses.run([os.path.join(d, 't.case')], cwd=d, mode='normal')
+    viol, inconc = [], []
+    nev = 0
+    if r.timed_out:
+        inconc.append('watchdog')
+    elif r.exc is not None or r.rc != 0:
+        viol.append({'what': 'C13 multi-text filter case did not PASS: rc=%r %s' % (r.rc, r.err[:300]),
+                     'detail': {'case_text': text}})
+    else:
+        recs = probe.read_records(out)
+        expected = {}
+        for k, (lines, t) in enumerate(texts):
+            n = len(lines)
+            if case['sub'] == 'ranges':
+                ks = set()
+                for rg in case['spec']:
+                    ks |= range_set(rg, n)
+                keep = sorted(ks)
+            else:
+                keep = [j for j in range(1, n + 1) if eval_lm(case['spec'], j, lines[j - 1])]
+            expected[k] = ''.join(lines[j - 1] + ('\n' if (j < n or case['final_nl']) else '') for j in keep)
+        if len(recs) != len(lens):
+            viol.append({'what': 'C13 multi-text: %d texts filtered, %d transformed texts observed' % (len(lens), len(recs)),
+                         'detail': {'case_text': text}})
+        else:
+            got_by_file = {}
+            empties = 0
+            for rec in recs:
+                g = rec['stdin'].decode('utf-8', 'replace')
+                if not g:
+                    empties += 1
+                    continue
+                k = int(g.split(':', 1)[0][1:])
+                got_by_file[k] = g
+            exp_empty = sum(1 for v in expected.values() if v == '')
+            for k in sorted(expected):
+                nev += 1
+                ctx.count('c13.outputs_compared')
+                ctx.count('c13.multi_text_outputs_compared')
+                if expected[k] == '':
+                    continue
+                if got_by_file.get(k) != expected[k]:
+                    viol.append({'what': 'C13 filter %s applied (one instruction) to texts of %r lines: text %d gives %r, '
+                                         'reference %r' % (src, lens, k, got_by_file.get(k), expected[k]),
+                                 'detail': {'filter': src, 'kind': 'multi', 'lens': lens, 'observed': got_by_file.get(k),
+                                            'expected': expected[k]}})
+            if empties != exp_empty:
+                viol.append({'what': 'C13 filter %s applied (one instruction) to texts of %r lines: %d empty outputs, '
+                                     'reference %d' % (src, lens, empties, exp_empty),
+                             'detail': {'filter': src, 'kind': 'multi', 'lens': lens}})
+        for m in _M5_STATE['violations']:
+            viol.append({'what': 'C13 ' + m, 'detail': {'case_text': text, 'kind': 'm5'}})
+    for mv in monitor.take_violations():
+        inconc.append(mv['what'])
+    ses.clean_tmp()
+    ses.drop(d)
+    res = {'classes': [('multi', case['sub'], len(lens), len(set(lens)))], 'viol': viol, 'inconclusive': inconc,
+           'evaluations': max(nev, 1)}
+    if len(lens) == 4 and case['sub'] == 'ranges':
+        res['sample'] = {'case_text': text.replace(probe.PROBE, 'PROBE'), 'line_counts': lens}
+    return res
+
+
 def run_case(case, ctx):
+    if case['kind'] == 'multi':
+        return run_multi(case, ctx)
     from vf import monitor
     ses = ctx.get_session()
     n = case['n']
